@@ -2,7 +2,12 @@
 # Run the repository's pinned baseline (guard off) and compare with BASELINE.json: every stable_pass test must pass.
 cd ${BASELINE_REPO:-/repo} && export GOFLAGS=-mod=mod GOPROXY=off
 out=${1:-/tmp/baseline.json}
+before=$(git status --porcelain 2>/dev/null)
 go test -json -vet=off -count=1 -timeout 25m ./... > "$out" 2>/dev/null
+# some tests rewrite their golden files when they fail (under load): put back testdata the run itself modified
+git status --porcelain 2>/dev/null | while read -r st f; do
+  case "$f" in */testdata/*) echo "$before" | grep -qF "$f" || git checkout -q -- "$f" 2>/dev/null;; esac
+done
 python3 - "$out" <<'PY'
 import json,sys
 passed=set(); failed=set()
